@@ -218,7 +218,7 @@ macro_rules! iss {
         }
     };
 }
-//@begin prop=C05 tier=quick secp=1 mem=32 timeout=2400 desc="explicit issuance (shape per shard: asset only / token only / both): Ok exactly when the issued asset and token amounts equal the corresponding outputs; amounts, entropy and asset ids symbolic"
+//@begin prop=C05 tier=thorough secp=1 mem=32 timeout=2400 desc="explicit issuance (shape per shard: asset only / token only / both): Ok exactly when the issued asset and token amounts equal the corresponding outputs; amounts, entropy and asset ids symbolic"
 iss!(issuance_token_only, false, true);
 //@end
 //@begin prop=C05 tier=thorough secp=1 mem=32 timeout=3000 desc="explicit issuance, asset only"
